@@ -8,7 +8,8 @@ from vf.fixtures import CompA, CompB, CompC, CompD, CompF, check, sized_lists, w
 
 PROPERTY = "C13"
 BUDGET = {"quick": 1600, "thorough": 5000}
-RULE = ("Population histories (add with component subset of {A,B,C} and tag in {0,1,2,7}, remove) of <= 8 agents in a plain "
+RULE = ("Population histories (add with component subset of {A,B,F} - F has falsy instances - and tag in {0,1,2,7}, remove, "
+        "re-tagging a resident agent, a resident agent gaining/losing a component) of <= 8 agents in a plain "
         "environment or a GridWorld, interleaved with queries: template of 0-3 types from {A,B,C,D (nobody has it)} x tag in "
         "{None, 0, 1, 2, 7, 9}; generated model seed. For every query: get_agents == model filter (all listed types, tag equal "
         "when given incl. 0) in joining order and a FRESH list (it is cleared/extended, the next query and the environment are "
@@ -53,6 +54,29 @@ def run_case(case):
                 continue
             a, _, _ = pop.pop(int(op["k"]) % len(pop))
             env.remove_agent(a.id)
+        elif op["op"] == "retag":                     # documented: "you can assign it post-initialization: p1.tag = Tags.PREY"
+            if not pop:
+                continue
+            i = int(op["k"]) % len(pop)
+            a, mask, _ = pop[i]
+            a.tag = int(op["tag"])
+            pop[i] = (a, mask, int(op["tag"]))
+            labels.add("retagged")
+        elif op["op"] == "toggle":                    # a resident agent gains / loses a component (with the explicit scheduler call)
+            if not pop:
+                continue
+            i = int(op["k"]) % len(pop)
+            a, mask, tg = pop[i]
+            ti = int(op["t"]) % 3
+            if mask >> ti & 1:
+                model.systems.deregister_component(a[TYPES[ti]])
+                a.remove_component(TYPES[ti])
+            else:
+                c = TYPES[ti](a, model)
+                a.add_component(c)
+                model.systems.register_component(c)
+            pop[i] = (a, mask ^ (1 << ti), tg)
+            labels.add("component-toggled")
         elif op["op"] == "query":
             tmpl_idx = [int(t) % 4 for t in op.get("tmpl", [])][:3]
             tmpl = [TYPES[i] for i in tmpl_idx]
@@ -123,9 +147,11 @@ def run_case(case):
 def strategy(tier):
     add = st.fixed_dictionaries({"op": st.just("add"), "mask": st.integers(0, 7), "tag": st.sampled_from([None, 0, 1, 1, 2, 7])})
     rem = st.fixed_dictionaries({"op": st.just("remove"), "k": st.integers(0, 7)})
+    retag = st.fixed_dictionaries({"op": st.just("retag"), "k": st.integers(0, 7), "tag": st.sampled_from([0, 1, 2, 7])})
+    toggle = st.fixed_dictionaries({"op": st.just("toggle"), "k": st.integers(0, 7), "t": st.integers(0, 2)})
     q = st.fixed_dictionaries({"op": st.just("query"), "tmpl": st.lists(st.sampled_from([0, 0, 1, 1, 2, 3]), max_size=3),
                                "tag": st.sampled_from([None, None, 0, 0, 1, 2, 7, 9]), "omit_tag": st.booleans()})
     return st.fixed_dictionaries({"seed": wone_of(st.integers(0, 50), st.integers(-2 ** 70, 2 ** 70)),
                                   "grid": st.sampled_from([False, False, False, True]),
                                   "ops": st.builds(lambda first, rest: first + rest, sized_lists(add, 0, 6),
-                                                   sized_lists(wone_of(add, add, rem, q, q, q), 3, 22))})
+                                                   sized_lists(wone_of(add, add, rem, retag, toggle, q, q, q, q), 3, 22))})
